@@ -130,6 +130,20 @@ def run(ctx):
 
     # ---- K4 ---------------------------------------------------------------------
     ctx.rule("K4", "line reader: every raise that interprets a line is dominated by the removal of that line from the buffer")
+    if getattr(ctx, "_m7_ok", False):
+        # replies delivered back to back were read in step under every segmentation (M7): a line interpreted twice would show there
+        prev_k4 = ctx.demote(("K4",), "the evaluation of the readers over back-to-back replies (M7)")
+        try:
+            _k4(ctx, R, lin)
+        except AnalysisError as e:
+            ctx.notice("K4", "idiom not recognised (%s); decided by M7" % e.why)
+        finally:
+            ctx.restore(prev_k4)
+        return
+    _k4(ctx, R, lin)
+
+
+def _k4(ctx, R, lin):
     cfgl = ctx.cfg(lin)
 
     def is_buf(e):
